@@ -381,6 +381,12 @@ func (e *c17BEnv) run(c c17BCase) (key, what, outcome, inconclusive string) {
 		return ""
 	}
 	peer, other := newC17Peer("hostile"), newC17Peer("other")
+	// poolRoutine resolves the peer of a request through the switch's peer set
+	for _, p := range []*c17Peer{peer, other} {
+		if err := sw.Peers().(*p2p.PeerSet).Add(p); err != nil {
+			panic(err)
+		}
+	}
 	recv := func(p *c17Peer, bz []byte) (pn string) {
 		defer func() {
 			if r := recover(); r != nil {
@@ -420,8 +426,14 @@ func (e *c17BEnv) run(c c17BCase) (key, what, outcome, inconclusive string) {
 		}
 	}
 	// lock not left held
-	if !bcR.pool.mtx.TryLock() {
-		return "blockchain/v0:pool-mutex-left-locked-after-Receive", "pool.mtx still held after Receive returned: " + desc, "", ""
+	if c.Mode == 0 {
+		// nobody else uses the idle pool: the lock must be free right now
+		if !bcR.pool.mtx.TryLock() {
+			return "blockchain/v0:pool-mutex-left-locked-after-Receive", "pool.mtx still held after Receive returned: " + desc, "", ""
+		}
+	} else if !c17BWait(peer.ev, func() bool { return bcR.pool.mtx.TryLock() }) {
+		// requesters take the lock legitimately; it must become free again
+		return "", "", "", "pool.mtx could not be acquired within the timeout"
 	}
 	npeers, nreq := len(bcR.pool.peers), len(bcR.pool.requesters)
 	bcR.pool.mtx.Unlock()
@@ -580,5 +592,7 @@ func TestVerifC17Blockchain(t *testing.T) {
 		}
 	}
 	r.Bound = fmt.Sprintf("2 modes x 2 peer states x (3 shapeless kinds + 7 heights x {BlockRequest, NoBlockResponse} + 7x7 StatusResponse + singles/pairs%s over %d blocks)", map[bool]string{true: "/triples", false: ""}[vr.Thorough()], len(e.menu))
-	r.Set("cases_enumerated_total", len(cases))
+	if r.Shard == 0 {
+		r.Set("cases_enumerated_total", len(cases))
+	}
 }
